@@ -134,8 +134,11 @@ func (s *Session) OnEvent(event Event) {
 						case s.failed <- err:
 						default:
 						}
+					} else {
+						// A failed session stays registered with the cluster: a nil pool stored here would be
+						// dereferenced by a later add/remove event for its host.
+						s.pools.Store(host.Key(), pool)
 					}
-					s.pools.Store(host.Key(), pool)
 					wg.Done()
 				}(host)
 			}
